@@ -13,6 +13,8 @@ import xml.etree.ElementTree as ET
 ap = argparse.ArgumentParser()
 ap.add_argument('--dir', default='/repo')
 ap.add_argument('-n', type=int, default=0)
+ap.add_argument('--no-tui', action='store_true',
+                help='skip tests/integration/tui (timing-sensitive here)')
 a = ap.parse_args()
 b = json.load(open('/root/.vp/BASELINE.json'))
 out = tempfile.mkdtemp(prefix='cylc-verif-baseline-')
@@ -20,6 +22,10 @@ junit = os.path.join(out, 'run.junit.xml')
 cmd = b['cmd'].replace('<file>', junit).replace('cd /repo', f'cd {a.dir}')
 if a.n:
     cmd += f' -n {a.n}'
+if a.no_tui:
+    cmd += ' --ignore=tests/integration/tui'
+    b['stable_pass'] = [t for t in b['stable_pass']
+                        if not t.startswith('tests.integration.tui.')]
 env = dict(os.environ)
 env.pop('CYLC_FLOW_VERIF', None)
 if a.dir != '/repo':
